@@ -13,6 +13,7 @@ import (
 	"fmt"
 	"strings"
 	"time"
+	_ "time/tzdata" // the zone database, independent of what the host has installed
 
 	wrapping "github.com/hashicorp/go-kms-wrapping/v2"
 	"github.com/hashicorp/nodeenrollment"
@@ -43,7 +44,13 @@ type kase struct {
 	Mut   string        `json:"mut,omitempty"`
 	Clock string        `json:"clock,omitempty"`
 	At    time.Duration `json:"at,omitempty"` // honest: instant of use relative to creation
-	Seed  int64         `json:"seed"`
+	// Side: the fields of the request that lie outside the signed bundle (the
+	// re-wrapped registration info and its key id) are filled with junk
+	Side bool `json:"unsigned_side_fields,omitempty"`
+	// Zone: honest requests are created by a node whose local time zone changes
+	// its UTC offset within the request's lifetime
+	Zone string `json:"zone,omitempty"`
+	Seed int64  `json:"seed"`
 }
 
 type world struct {
@@ -214,6 +221,12 @@ func reencode(b []byte, kind string, i int) []byte {
 	return out
 }
 
+// zoneInstants: an instant 14 hours before the zone's UTC offset changes.
+var zoneInstants = map[string]func(*time.Location) time.Time{
+	"America/New_York": func(l *time.Location) time.Time { return time.Date(2030, 3, 9, 12, 0, 0, 0, l) },   // clocks go forward on 2030-03-10
+	"Europe/Berlin":    func(l *time.Location) time.Time { return time.Date(2030, 10, 26, 13, 0, 0, 0, l) }, // clocks go back on 2030-10-27
+}
+
 func flip(b []byte, bit int) []byte {
 	out := append([]byte{}, b...)
 	out[bit/8] ^= 1 << uint(bit%8)
@@ -232,6 +245,9 @@ func (w *world) one(k kase, r *engine.Report) (string, string) {
 		info := w.info(k.Mode)
 		info.NotBefore, info.NotAfter = timestamppb.New(now.Add(k.NB)), timestamppb.New(now.Add(k.NA))
 		req := harness.SignedRequest(info, w.k)
+		if k.Side {
+			req.RewrappedWrappingRegistrationFlowInfo, req.RewrappingKeyId = []byte{0x0a, 0x01, 0x00}, "some-key-id"
+		}
 		proceeded, _, calls, writes, err, pm := w.call(k.Mode, req, nodeenrollment.WithNotBeforeClockSkew(k.SkNB), nodeenrollment.WithNotAfterClockSkew(k.SkNA))
 		vclock.Freeze(harness.T0)
 		if pm != "" {
@@ -243,6 +259,9 @@ func (w *world) one(k kase, r *engine.Report) (string, string) {
 			slack = 8 // a few clock reads
 		}
 		desc := fmt.Sprintf("[%s, %s clock] window now%+v..now%+v, skews nb=%v na=%v (widened: now%+v..now%+v)", k.Mode, k.Clock, k.NB, k.NA, k.SkNB, k.SkNA, lo, hi)
+		if k.Side {
+			desc += " [unsigned side fields of the request filled with junk]"
+		}
 		inside := lo < -slack && hi > slack
 		outside := lo > slack || hi < -slack
 		switch {
@@ -366,6 +385,30 @@ func (w *world) one(k kase, r *engine.Report) (string, string) {
 	case "honest":
 		// a request created by the library itself, used `At` after creation
 		vclock.Freeze(harness.T0)
+		if k.Zone != "" {
+			// the node's clock reads local time in a zone that changes its UTC
+			// offset 14 hours from now; the request is still good for exactly L
+			loc, lerr := time.LoadLocation(k.Zone)
+			if lerr != nil {
+				r.InfraError("time zone database: " + lerr.Error())
+				return "", ""
+			}
+			created := zoneInstants[k.Zone](loc)
+			vclock.Freeze(created)
+			creds := harness.NodeCreds(w.k, w.e, w.n1)
+			req, err := creds.CreateFetchNodeCredentialsRequest(harness.Ctx)
+			vclock.Freeze(harness.T0)
+			if err != nil {
+				return "honest-create-fails", err.Error()
+			}
+			info := new(types.FetchNodeCredentialsInfo)
+			proto.Unmarshal(req.Bundle, info)
+			if !info.NotBefore.AsTime().Equal(created) || info.NotAfter.AsTime().Sub(info.NotBefore.AsTime()) != L {
+				return "honest-window:offset-change-ahead", fmt.Sprintf("a request created at %v by a node in %s is valid for %v, want %v", created, k.Zone, info.NotAfter.AsTime().Sub(info.NotBefore.AsTime()), L)
+			}
+			r.Branch("honest-across-offset-change")
+			return "", ""
+		}
 		creds := harness.NodeCreds(w.k, w.e, w.n1)
 		var o []nodeenrollment.Option
 		switch k.Mode {
@@ -411,6 +454,9 @@ func (w *world) cases(c *engine.Ctx, emit func(kase)) {
 								continue
 							}
 							emit(kase{Kind: "window", Mode: mode, NB: nb, NA: na, SkNB: snb, SkNA: sna, Clock: clk, Seed: c.Seed})
+							if clk == "frozen" && snb == 0 && sna == 0 {
+								emit(kase{Kind: "window", Mode: mode, NB: nb, NA: na, Clock: clk, Side: true, Seed: c.Seed})
+							}
 						}
 					}
 				}
@@ -439,6 +485,11 @@ func (w *world) cases(c *engine.Ctx, emit func(kase)) {
 		}
 		for _, m := range []string{"no-cert-key", "cert-key-type-unspecified", "cert-key-type-x25519", "no-nonce", "no-enc-key", "enc-key-type-ed25519", "no-not-after", "cert-key-garbage", "cert-key-ecdsa", "no-bundle", "no-signature"} {
 			emit(kase{Kind: "field", Mode: mode, Mut: m, Seed: c.Seed})
+		}
+		if mode == "authorize" {
+			for _, z := range []string{"America/New_York", "Europe/Berlin"} {
+				emit(kase{Kind: "honest", Mode: mode, Zone: z, Seed: c.Seed})
+			}
 		}
 		for _, at := range []time.Duration{-1, 0, 1, L / 2, L - 1, L + 1, 2 * L} {
 			emit(kase{Kind: "honest", Mode: mode, At: at, Seed: c.Seed})
@@ -489,7 +540,7 @@ func init() {
 	engine.Register(&engine.CheckDef{
 		ID:    "C03",
 		Level: "exploration",
-		Rule: "through AuthorizeNode, FetchNodeCredentials in three enrollment modes (record, token, wrapper) and RotateNodeCredentials (the request embedded in an enrolled node's rotation envelope): window placements (NotBefore, NotAfter) relative to now from {-2L,-L-1ns,-L,-1ns,0,+1ns,+L,+L+1ns,+2L}^2 x skew pairs from {-1h,-5m,-1ns,0,1ns,5m,1h}^2 under a frozen and a ticking clock; every single-bit flip and every truncation of bundle and of signature, equivalent re-encodings of the bundle (neighbouring field records swapped, all reversed, non-minimal length varints), swapped signature/bundle, signature by another key; 11 missing-field / wrong-key-type variants; node-created requests used at {-1ns,0,1ns,L/2,L-1ns,L+1ns,2L} after creation; " +
+		Rule: "through AuthorizeNode, FetchNodeCredentials in three enrollment modes (record, token, wrapper) and RotateNodeCredentials (the request embedded in an enrolled node's rotation envelope): window placements (NotBefore, NotAfter) relative to now from {-2L,-L-1ns,-L,-1ns,0,+1ns,+L,+L+1ns,+2L}^2 x skew pairs from {-1h,-5m,-1ns,0,1ns,5m,1h}^2 under a frozen and a ticking clock; every single-bit flip and every truncation of bundle and of signature, equivalent re-encodings of the bundle (neighbouring field records swapped, all reversed, non-minimal length varints), swapped signature/bundle, signature by another key; 11 missing-field / wrong-key-type variants; node-created requests used at {-1ns,0,1ns,L/2,L-1ns,L+1ns,2L} after creation, and created by a node whose local zone changes its UTC offset within the next day (forward and back); window placements again with the request's unsigned side fields filled with junk; " +
 			"distinct_nontrivial counts cases (distinct by construction) except exact ties between now and a widened window end, on which the property is silent",
 		Assumptions: []string{"random multi-byte mutations are sampling and are not claimed; all single-bit flips and truncations are enumerated", "'processed past validation' is observed as any storage call or a success: validation itself is storage-free (embedded in a rotation: as a storage write or a success, the envelope being opened with a stored record first)", "exact ties are not judged"},
 		Shards:      func(c *engine.Ctx) int { return 16 },
